@@ -562,10 +562,10 @@ impl Add for Natural {
     type Output = Self;
     fn add(mut self, mut rhs: Self) -> Self {
         if rhs.len == 0 {
-            return self;
+            return if rhs.is_nan() { rhs } else { self };
         }
         if self.len == 0 {
-            return rhs;
+            return if self.is_nan() { self } else { rhs };
         }
 
         if self.shl > rhs.shl {
